@@ -229,7 +229,16 @@ func (b *binaryReader) bitmap() *roaring.Bitmap {
 		return nil
 	}
 	r := roaring.New()
-	_, b.err = r.FromBuffer(b.b[:l])
+	_, err := r.FromBuffer(b.b[:l])
+	if err == nil {
+		// FromBuffer accepts structurally broken bitmaps on which later
+		// operations panic.
+		err = r.Validate()
+	}
+	if err != nil && b.err == nil {
+		// keep the first error: a later good bitmap must not clear it
+		b.err = err
+	}
 	b.b = b.b[l:]
 	return r
 }
